@@ -80,7 +80,19 @@ pub fn check(c: &Case, cs: &mut CaseStats) -> Result<(), String> {
     threads.sort();
     threads.dedup();
     let s1 = (c.aux_i[1] as u64) | 1;
-    let seeds: Vec<u64> = if tier_thorough { vec![0, s1, s1.rotate_left(17) | 1, s1.rotate_left(31) | 1, s1.wrapping_mul(0x9E37_79B9) | 1] } else { vec![0, s1, s1.rotate_left(17) | 1] };
+    // cost guard (a pure function of the case: the number of exact-predicate calls of the
+    // sequential build): degenerate inputs whose every clip is decided exactly cost seconds
+    // per build; the quick tier runs them on a reduced matrix (2 and 16 threads, one plain and
+    // one jittered run)
+    let exact_calls = seq["exact"][0].as_u64().unwrap_or(0);
+    let heavy = !tier_thorough && exact_calls > 400_000;
+    if heavy {
+        threads = vec![2, 16];
+        cs.label("heavy-case-reduced-matrix");
+    }
+    let seeds: Vec<u64> = if heavy {
+        vec![s1]
+    } else if tier_thorough { vec![0, s1, s1.rotate_left(17) | 1, s1.rotate_left(31) | 1, s1.wrapping_mul(0x9E37_79B9) | 1] } else { vec![0, s1, s1.rotate_left(17) | 1] };
     let mut scrambled = false;
     let mut orders = std::collections::BTreeSet::new();
     for &t in &threads {
@@ -126,7 +138,7 @@ pub fn check(c: &Case, cs: &mut CaseStats) -> Result<(), String> {
 pub fn def() -> PropDef {
     PropDef {
         id: "C09",
-        rule: "cases: all families x masks, dims 1-3, periodic or not, n to 700 (quick) / 4000 (thorough), 45% of the cases with n > 40. Per case: the sequential build of the library (separate binary, cargo feature rayon off) produces the reference dump; the default build is then run inside explicit rayon pools of 1, 2, 16 and two more of {3, 4, 7, 8, 32, 64} threads (all nine sizes in the thorough tier), each with jitter off (twice) and with 2 (thorough: 4) seeded jitter settings of the hook set_jitter (a busy-wait of pseudo-random length per cell, so that cells complete in a seeded pseudo-random order; the observed order is logged). oracle: bitwise equality, section by section, of: the compact tessellation built directly and through the integrator (cells, faces in stored order, connectivity), cell / face / symmetric face integrals, the three *_with_data variants, vertices and planes of every convex cell, and all of it again through with_faces() in 3D. non-trivial: some run with >= 2 threads, n >= 4 x threads, jitter armed and a logged completion order that is not the index order; evidence counts the distinct completion orders observed; distinct by case hash.",
+        rule: "cases: all families x masks, dims 1-3, periodic or not, n to 700 (quick) / 4000 (thorough), 45% of the cases with n > 40. Per case: the sequential build of the library (separate binary, cargo feature rayon off) produces the reference dump; the default build is then run inside explicit rayon pools of 1, 2, 16 and two more of {3, 4, 7, 8, 32, 64} threads (all nine sizes in the thorough tier), each with jitter off (twice) and with 2 (thorough: 4) seeded jitter settings of the hook set_jitter (a busy-wait of pseudo-random length per cell, so that cells complete in a seeded pseudo-random order; the observed order is logged); quick tier only: inputs whose sequential build needs more than 400 000 exact-predicate calls (a pure function of the input) run on a reduced matrix of 2 and 16 threads with one jittered run each (label heavy-case-reduced-matrix). oracle: bitwise equality, section by section, of: the compact tessellation built directly and through the integrator (cells, faces in stored order, connectivity), cell / face / symmetric face integrals, the three *_with_data variants, vertices and planes of every convex cell, and all of it again through with_faces() in 3D. non-trivial: some run with >= 2 threads, n >= 4 x threads, jitter armed and a logged completion order that is not the index order; evidence counts the distinct completion orders observed; distinct by case hash.",
         strategy,
         check,
         cases: |t| t.pick(400, 6000),
